@@ -15,6 +15,7 @@ fn main() {
     let rest = &args[args.len().min(1)..];
     let code = match cmd {
         "c14-trace" => c14::trace(rest),
+        "c14-build" => c14::build(rest),
         "lang-trace" => lang::trace(rest),
         "c12-sweep" => c12::sweep(rest),
         "c07-record" => lang::literals(rest),
